@@ -39,10 +39,13 @@ static unsigned long v_cex(const char *name, long idx)
 # define VREACH()               do { printf("REPLAY-REACHED-END\n"); } while (0)
 # define V_NATIVE_MAIN(h)       int main(void) { h(); if (v_replay_pre_violated) return 3; return v_replay_failed ? 1 : 0; }
 # define __CPROVER_assume(c)    ASSUME(c)
+# define __CPROVER_assert(c, m) ((void)0)
 # define __CPROVER_requires(...)
 # define __CPROVER_ensures(...)
 # define __CPROVER_assigns(...)
 # define __CPROVER_frees(...)
+# define __CPROVER_loop_invariant(...)
+# define __CPROVER_decreases(...)
 #else
 # define INPUT(T, x)            T x
 # define INPUT_ARR(T, x, n)     T x[n]
